@@ -1,0 +1,17 @@
+//go:build verif
+
+// Contracts for package cstate, checked by /verif/govc (comment-only; see /verif/DESIGN.md).
+package cstate
+
+// ---------------------------------------------------------------- C14: loading a saved state
+//@ trusted func StateFromProto(pb *kstate.State) (r *LatestBlockState, err error)
+//@   ensures err == nil ==> fresh(r)
+
+// Every field of the loaded state comes from the record that stores it: block id, time and tx count
+// from the block meta of that height, the application hash from the app-hash record of that height,
+// the validator sets and parameters from the records the state record points to.
+//@ func loadStateAtHeight(db kaidb.Database, height uint64) (r *LatestBlockState)
+//@   for C14
+//@   modifies *
+//@   ensures [blockMetaFields] r != nil ==> r.LastBlockID == old(rawdb.metaAt(db, height).BlockID) && r.LastBlockTime == old(rawdb.metaAt(db, height).Header.Time) && r.LastBlockHeight == old(rawdb.metaAt(db, height).Header.Height) && r.LastBlockTotalTx == old(rawdb.metaAt(db, height).Header.NumTxs)
+//@   ensures [appHashOfThatHeight] r != nil ==> r.AppHash == rawdb.appHashAt(db, height)
